@@ -3,9 +3,10 @@
 From Verif Require Import Lib.Bytes Net.IpC16.
 Open Scope N_scope.
 
-(* strconv.ParseUint(s, 10, 16): non-empty, ASCII digits only, value at most 65535
-   (any number of leading zeros) *)
+(* a port suffix of more than five characters is not a port (repair of F101); then
+   strconv.ParseUint(s, 10, 16): non-empty, ASCII digits only, value at most 65535 *)
 Definition parse_port (s : bytes) : option N :=
+  if (5 <? length s)%nat then None else
   match parse_dec s with
   | Some n => if n <=? 65535 then Some n else None
   | None => None
